@@ -18,6 +18,9 @@ import (
 //	restarted.dep     db finished with 0 once, was restarted through the API and its new
 //	                  instance is still running when web (process_completed_successfully on db)
 //	                  is started through the API: web waits for the instance that exists now.
+//	dep.stopped/restarted.before.ready.line
+//	                  web waits for db's ready log line; db is stopped (or restarted) through the
+//	                  API before it prints the line: web is never launched on that account.
 //	update.adds.both  a project update adds extradep (readiness probe, not ready yet) and
 //	                  extra (process_healthy on extradep) in one request, whatever order the
 //	                  update visits them in: extra is launched only after extradep is ready.
@@ -25,7 +28,7 @@ func VerifC01_Api2() {
 	w := vInit()
 	vBindHealth()
 	verifBind("os.Stat", vStatDir)
-	scen := []string{"missing.sibling", "restarted.dep", "update.adds.both"}[verifChooseK("scenario", 3)]
+	scen := []string{"missing.sibling", "restarted.dep", "update.adds.both", "dep.stopped.before.ready.line", "dep.restarted.before.ready.line"}[verifChooseK("scenario", 5)]
 	verifShape(scen)
 	var mu sync.Mutex
 	condMet := false // ground truth of the one condition under test
@@ -97,6 +100,25 @@ func VerifC01_Api2() {
 		_ = r.StartProcess("web")
 		verifQuiesce()
 		verifAssert("web.waits.for.the.new.instance", vGet(w.alive, "web") == 0)
+		_ = r.ShutDownProject()
+		<-runDone
+	case "dep.stopped.before.ready.line", "dep.restarted.before.ready.line":
+		db := vConf("db", nil)
+		db.ReadyLogLine = "ready"
+		web := vConf("web", map[string]string{"db": types.ProcessConditionLogReady})
+		w.behav["db"] = &vBehav{untilStop: []bool{true}, lines: []string{"booting"}}
+		w.behav["web"] = &vBehav{untilStop: []bool{true}}
+		r := vRunner(vProject(db, web), false)
+		go func() { runDone <- r.Run() }()
+		verifQuiesce() // db runs and has not printed its ready line, web waits
+		verifAssert("web.waits", vGet(w.alive, "web") == 0 && vGet(w.alive, "db") == 1)
+		if scen == "dep.stopped.before.ready.line" {
+			_ = r.StopProcess("db")
+		} else {
+			_ = r.RestartProcess("db")
+		}
+		verifQuiesce()
+		verifAssert("web.not.launched.without.the.ready.line", vGet(w.starts, "web") == 0)
 		_ = r.ShutDownProject()
 		<-runDone
 	case "update.adds.both":
